@@ -797,4 +797,207 @@ example : executeSig noDb (fun _ => some ⟨[.str], none⟩) (cmdline [116] [[97
 theorem execute_is_a_function_of_the_parse (db : UniDb) (cmds : Str → Option Sig) (line : Str) :
     executeSig db cmds line = executeToks db cmds (lex line) := rfl
 
+/-! ### every convertible parameter type: int, bool, path beside str and verbatim -/
+
+def liftTy : ArgTy → ArgTyT
+  | .str => .str
+  | .verbatim => .verbatim
+
+def liftSig (sig : Sig) : SigT := ⟨sig.params.map liftTy, sig.varargs.map liftTy⟩
+
+def liftExec : Exec → ExecT
+  | .arity => .arity
+  | .noCommand => .noCommand
+  | .unknown => .unknown
+  | .badArg => .badArg
+  | .call n as => .call n (as.map TVal.s)
+
+private theorem parseArgT_lift (db : UniDb) (env : Env) (t : ArgTy) (a : Str) :
+    parseArgT db env (liftTy t) a = (parseArg db t a).map TVal.s := by
+  cases t <;> rfl
+
+private theorem collectT_lift (db : UniDb) (env : Env) : ∀ (tys : List ArgTy) (args : List Str),
+    collectT (List.zipWith (parseArgT db env) (tys.map liftTy) args) =
+      (collect (List.zipWith (parseArg db) tys args)).map (List.map TVal.s) := by
+  intro tys
+  induction tys with
+  | nil => intro args; rfl
+  | cons t ts ih =>
+    intro args
+    cases args with
+    | nil => rfl
+    | cons a r =>
+      simp only [List.map_cons, List.zipWith_cons_cons, parseArgT_lift]
+      cases hp : parseArg db t a with
+      | none => rfl
+      | some v =>
+        simp only [Option.map_some, collectT, collect, ih r]
+        cases collect (List.zipWith (parseArg db) ts r) <;> rfl
+
+private theorem bindTysT_lift (sig : Sig) (n : Nat) :
+    bindTysT (liftSig sig) n = (bindTys sig n).map (List.map liftTy) := by
+  unfold bindTysT bindTys liftSig
+  simp only [List.length_map]
+  split
+  · rfl
+  · cases sig.varargs with
+    | none => simp only [Option.map_none]; split <;> rfl
+    | some t => simp [List.map_append, List.map_replicate]
+
+/-- **typed_execute_extends_execute.** The execution model with all convertible parameter types coincides with the
+    one of the theorems above on every command table that uses `str` / verbatim parameters only: every earlier
+    theorem about `executeSig` is a theorem about what the driver runs. -/
+theorem typed_execute_extends_execute (db : UniDb) (env : Env) (cmds : Str → Option Sig) (line : Str) :
+    executeT db env (fun n => (cmds n).map liftSig) line = liftExec (executeSig db cmds line) := by
+  unfold executeT executeSig
+  cases (argTokens line).map unquote with
+  | nil => rfl
+  | cons name args =>
+    simp only
+    cases cmds name with
+    | none => rfl
+    | some sig =>
+      simp only [Option.map_some, bindTysT_lift]
+      cases bindTys sig args.length with
+      | none => rfl
+      | some tys =>
+        simp only [Option.map_some, collectT_lift]
+        cases collect (List.zipWith (parseArg db) tys args) <;> rfl
+
+private theorem collectT_eq_some (l : List (Option TVal)) (vs : List TVal) : collectT l = some vs ↔ l = vs.map some := by
+  induction l generalizing vs with
+  | nil => cases vs <;> simp [collectT]
+  | cons a r ih =>
+    cases a with
+    | none => cases vs <;> simp [collectT]
+    | some x =>
+      cases vs with
+      | nil => cases hc : collectT r <;> simp [collectT, hc]
+      | cons v vs =>
+        simp only [collectT, List.map_cons, List.cons.injEq, Option.some.injEq]
+        cases hc : collectT r with
+        | none =>
+          simp only [Option.map_none]
+          constructor
+          · intro h; cases h
+          · intro ⟨_, h2⟩; rw [(ih vs).mpr h2] at hc; cases hc
+        | some w =>
+          simp only [Option.map_some, Option.some.injEq, List.cons.injEq]
+          constructor
+          · intro ⟨h1, h2⟩; exact ⟨h1, (ih vs).mp (by rw [hc, h2])⟩
+          · intro ⟨h1, h2⟩; rw [(ih vs).mpr h2] at hc; exact ⟨h1, (Option.some.inj hc).symm⟩
+
+/-- **execute_delivers_typed_values.** For EVERY line, environment, command table and signature over ALL convertible
+    parameter types (str, verbatim, int, bool, path): if a command is run, the values handed to it are — position by
+    position — exactly the typed conversions (`int()`, true/false, `expanduser`, escape interpretation, identity) of the
+    unquoted argument tokens of the line, one per token. -/
+theorem execute_delivers_typed_values (db : UniDb) (env : Env) (cmds : Str → Option SigT) (line name : Str)
+    (vals : List TVal) (h : executeT db env cmds line = .call name vals) :
+    ∃ tok toks sig tys, argTokens line = tok :: toks ∧ name = unquote tok ∧ cmds name = some sig ∧
+      bindTysT sig toks.length = some tys ∧ vals.length = toks.length ∧ tys.length = toks.length ∧
+      List.zipWith (parseArgT db env) tys (toks.map unquote) = vals.map some := by
+  unfold executeT at h
+  cases ht : argTokens line with
+  | nil => simp [ht] at h
+  | cons tok toks =>
+    simp only [ht, List.map_cons] at h
+    cases hc : cmds (unquote tok) with
+    | none => simp [hc] at h
+    | some sig =>
+      simp only [hc, List.length_map] at h
+      cases hb : bindTysT sig toks.length with
+      | none => simp [hb] at h
+      | some tys =>
+        simp only [hb] at h
+        cases hcol : collectT (List.zipWith (parseArgT db env) tys (toks.map unquote)) with
+        | none => simp [hcol] at h
+        | some as =>
+          simp only [hcol, ExecT.call.injEq] at h
+          obtain ⟨hn, hv⟩ := h
+          subst hv
+          have hz := (collectT_eq_some _ _).mp hcol
+          have hlen : tys.length = toks.length := by
+            unfold bindTysT at hb
+            split at hb
+            · cases hb
+            · rename_i hlt
+              cases hv : sig.varargs with
+              | none =>
+                simp only [hv] at hb
+                split at hb
+                · rename_i he; cases hb; exact (by simpa using he : toks.length = sig.params.length).symm
+                · cases hb
+              | some t => simp only [hv, Option.some.injEq] at hb; subst hb; simp; omega
+          refine ⟨tok, toks, sig, tys, rfl, hn.symm, hn ▸ hc, hb, ?_, hlen, hz⟩
+          have := congrArg List.length hz
+          simp only [List.length_zipWith, List.length_map, hlen, Nat.min_self] at this
+          exact this.symm
+
+/-- a bool parameter receives True for `true`, False for `false`, and the command is refused for anything else -/
+theorem bool_arg_exact (db : UniDb) (env : Env) (s : Str) :
+    parseArgT db env .bool s =
+      (if s = strTrueC then some (.b true) else if s = strFalseC then some (.b false) else none) := rfl
+
+/-- an int parameter receives Python's `int()` of the text (the transcription shared with the option parser) -/
+theorem int_arg_is_python_int (db : UniDb) (env : Env) (s : Str) :
+    parseArgT db env .int s = (MitmVerif.C44.pyInt s).map TVal.i := rfl
+
+/-- a path parameter receives every text that does not start with `~` unchanged -/
+theorem path_arg_unchanged_without_tilde (db : UniDb) (env : Env) (s : Str) (h : s.head? ≠ some 126) :
+    parseArgT db env .path s = some (.s s) := by
+  cases s with
+  | nil => rfl
+  | cons c r =>
+    have hc : c ≠ 126 := by intro e; apply h; simp [e]
+    simp only [parseArgT, expandUser]
+    split
+    · rename_i heq; cases heq; exact absurd rfl hc
+    · rfl
+
+/-- `~` and `~/rest` are replaced by `$HOME` without its trailing slashes -/
+theorem path_arg_home (db : UniDb) (env : Env) (h : Str) (rest : Str) (hh : env.home = some h)
+    (hne : rstripSlash h ≠ []) :
+    parseArgT db env .path (126 :: 47 :: rest) = some (.s (rstripSlash h ++ 47 :: rest)) := by
+  have hx : (rstripSlash h ++ 47 :: rest).isEmpty = false := by
+    cases hr : rstripSlash h with
+    | nil => exact absurd hr hne
+    | cons a b => rfl
+  simp [parseArgT, expandUser, spanNot, hh, hx]
+
+/-- **path_arg_roundtrip.** A Path-typed parameter receives `a` for `quote a` whenever `a` neither starts with `~`
+    nor holds both quote characters. -/
+theorem path_arg_roundtrip (db : UniDb) (env : Env) (a : Str) (h1 : a.head? ≠ some 126)
+    (h2 : ¬ (a.contains 34 = true ∧ a.contains 39 = true)) :
+    parseArgT db env .path (unquote (quote a)) = some (.s a) := by
+  rw [unquote_quote a h2]; exact path_arg_unchanged_without_tilde db env a h1
+
+example : parseArgT noDb ⟨some [47, 104, 47], fun _ => none⟩ .path [126, 47, 120] = some (.s [47, 104, 47, 120]) := by decide
+example : parseArgT noDb ⟨none, fun n => if n = [114] then some [47, 114] else none⟩ .path [126, 114, 47, 97] = some (.s [47, 114, 47, 97]) ∧
+    parseArgT noDb ⟨none, fun _ => none⟩ .path [126, 120] = some (.s [126, 120]) ∧
+    parseArgT noDb ⟨none, fun _ => none⟩ .path [126, 0] = none := by decide
+example : executeT noDb ⟨none, fun _ => none⟩ (fun _ => some ⟨[.int, .bool, .path], none⟩)
+    [116, 32, 34, 32, 49, 95, 48, 34, 32, 116, 114, 117, 101, 32, 120] = .call [116] [.i 10, .b true, .s [120]] := by decide
+
+private theorem spanNot_eq_spanNotSlash (r : Str) : spanNot 47 r = MitmVerif.C44.spanNotSlash r := by
+  induction r with
+  | nil => rfl
+  | cons c t ih => simp only [spanNot, MitmVerif.C44.spanNotSlash, ih]
+
+/-- the command-argument `expanduser` and the one used for config-file paths (C44) are the same transcription -/
+theorem expandUser_agrees_with_optmanager (env : Env) (p : Str) :
+    expandUser env p = MitmVerif.C44.expandUserP env.home env.pwHome p := by
+  cases p with
+  | nil => rfl
+  | cons c r =>
+    by_cases hc : c = 126
+    · subst hc
+      simp only [expandUser, MitmVerif.C44.expandUserP, spanNot_eq_spanNotSlash, rstripSlash, MitmVerif.C44.rstripSlashP]
+      rfl
+    · unfold expandUser MitmVerif.C44.expandUserP
+      split
+      · rename_i heq; cases heq; exact absurd rfl hc
+      · split
+        · rename_i heq; cases heq; exact absurd rfl hc
+        · rfl
+
 end MitmVerif.Props.C45
